@@ -48,6 +48,7 @@ def job_rezone(ctx, mode, rep, ranges=None, utc=False, direct=False, tzh=(-99, 9
             d = p - r
             o["diff"] = d
             o["diff_empty"] = not bool(d)
+            o["hp"], o["hr"] = p.__hash__(), r.__hash__()
         return o
 
     def post(i, out):
@@ -65,7 +66,8 @@ def job_rezone(ctx, mode, rep, ranges=None, utc=False, direct=False, tzh=(-99, 9
                ("zone object well formed", tz._unknown is False and tz._weeks is None)]
         if direct:
             obs += [("p == rezoned(p)", bool(o["eq"])), ("rezoned(p) == p", bool(o["eq_rev"])),
-                    ("p - rezoned(p) is empty", bool(o["diff_empty"]))]
+                    ("p - rezoned(p) is empty", bool(o["diff_empty"])),
+                    ("hash key of p equals hash key of rezoned(p)", core.hashkey_eq(o["hp"], o["hr"]))]
         return obs
 
     def case_of(v, i):
